@@ -159,17 +159,26 @@ def f_arr(a, w=1):
 _SYSTEMS = {}
 
 
-def sys_solve(n, kappa, cons):
-    '''A real user of cache.function: solver.System.solve (decorated in nutils itself).'''
+def sys_solve(n, kappa, cons, method=None):
+    '''A real user of cache.function: solver.System.solve (decorated in nutils itself), with each of the solution methods as an argument of the memoised call.'''
     from nutils import solver, function
     key = n
+    u = function.Argument('u', (n,))
     if key not in _SYSTEMS:
-        u = function.Argument('u', (n,))
         k = function.Argument('kappa', ())
         A = numpy.arange(n * n, dtype=float).reshape(n, n) / 8 + numpy.eye(n) * 3
         res = (function.Array.cast(A) + k * function.Array.cast(numpy.eye(n))) @ u - function.Array.cast(numpy.arange(1, n + 1, dtype=float))
         _SYSTEMS[key] = solver.System((res,), trial='u')
     system = _SYSTEMS[key]
+    if method is not None:
+        m = {'direct': lambda: solver.Direct(), 'newton': lambda: solver.Newton(), 'reuse': lambda: solver.ReuseNewton(require=.25), 'linesearch': lambda: solver.LinesearchNewton(),
+             'pseudotime': lambda: solver.Pseudotime(inertia=(u,), timestep=1.), 'arnoldi': lambda: solver.Arnoldi()}[method]()
+        constrain = {}
+        if cons:
+            c = numpy.full(n, numpy.nan)
+            c[0] = 2.5
+            constrain = {'u': c}
+        return system.solve(arguments={'kappa': numpy.array(float(kappa))}, constrain=constrain, method=m, tol=1e-9, maxiter=50)
     constrain = {}
     if cons:
         c = numpy.full(n, numpy.nan)
